@@ -13,7 +13,8 @@ template <class T> std::vector<T> nativeCall (const std::string& name, const std
 {
     auto it = natives ().find (name);
     if (it == natives ().end ()) throw std::logic_error ("no native evaluator for opaque call " + name);
-    if constexpr (std::is_same<T, double>::value) return it->second.d (args);
+    if constexpr (std::is_same<T, Frac>::value) throw std::logic_error ("opaque call at Frac");
+    else if constexpr (std::is_same<T, double>::value) return it->second.d (args);
     else if constexpr (std::is_same<T, float>::value) return it->second.f (args);
     else throw std::logic_error ("opaque call at unsupported element type");
 }
@@ -190,7 +191,8 @@ inline int sym_main (int argc, char** argv)
             std::ofstream os (dir + "/" + m + ".lean");
             os << "-- GENERATED from /repo/src/Imath by harness/sym (T = Sym path extraction); do not edit.\n";
             os << "import ImathVerif.Basic.Types\n";
-            for (auto& d : deps[m]) os << "import ImathVerif.Gen." << d << "\n";
+            // a dependency is a Gen module, or (dotted name, e.g. Model.GaussJordan) a hand model called opaquely
+            for (auto& d : deps[m]) os << "import ImathVerif." << (d.find ('.') == std::string::npos ? "Gen." : "") << d << "\n";
             os << "set_option linter.unusedVariables false\n";
             os << "namespace ImathVerif.Gen\nopen ImathVerif\n\n" << text[m] << "end ImathVerif.Gen\n";
         }
@@ -218,6 +220,55 @@ inline int sym_main (int argc, char** argv)
         }
         printf ("REAL %s not-found\n", fn.c_str ());
         return 2;
+    }
+    if (mode == "rattv")
+    {
+        // Lean-side emitter validation: print cases (inputs + exact results of the extracted tree at Frac)
+        unsigned long seed = argc > 2 ? strtoul (argv[2], 0, 10) : 1;
+        int           n    = argc > 3 ? atoi (argv[3]) : 6;
+        std::mt19937_64 g (seed);
+        for (size_t i = 0; i < entries ().size (); ++i)
+        {
+            FnRecord* r = recs[i];
+            if (r->status != "ok") continue;
+            // skip functions calling externally extracted functions (no tree in this binary)
+            bool ext = false;
+            {
+                std::vector<const Node*> st; std::set<const Node*> seen;
+                for (auto& p : r->paths) { for (auto& c : p.conds) { st.push_back (c.first.a); st.push_back (c.first.b); } for (auto* v : p.leaf.vals) st.push_back (v); }
+                while (!st.empty ()) { const Node* x = st.back (); st.pop_back (); if (!seen.insert (x).second) continue;
+                    if (x->op == CALL) { auto fi = fnIndex ().find (x->s); if (fi == fnIndex ().end () || fi->second->paths.empty ()) ext = true; }
+                    for (auto* k : x->k) st.push_back (k); }
+            }
+            if (ext) { printf ("RATSKIP %s external-call\n", r->name.c_str ()); continue; }
+            size_t nin = 0;
+            for (auto& p : r->params) nin += p.vars.size ();
+            for (int k = 0; k < n; ++k)
+            {
+                std::vector<Frac> in;
+                for (size_t j = 0; j < nin; ++j)
+                {
+                    long a = (long) (g () % 9) - 4;
+                    long d = (k % 3 == 2) ? (long) (g () % 3) + 1 : 1;
+                    if (k % 3 == 1 && g () % 3 == 0) a = 0;
+                    in.push_back (Frac ((I128) a, (I128) d));
+                }
+                try
+                {
+                    Evaluator<Frac> ev; std::vector<Frac> vals; std::vector<long> ints; std::string exc;
+                    if (!ev.run (*r, in, vals, ints, exc)) continue;
+                    printf ("RATCASE %s IN", r->name.c_str ());
+                    for (auto& x : in) printf (" %s", x.str ().c_str ());
+                    printf (" OUT exc=%s vals=", exc.empty () ? "-" : exc.c_str ());
+                    for (auto& x : vals) printf ("%s,", x.str ().c_str ());
+                    printf (" ints=");
+                    for (long x : ints) printf ("%ld,", x);
+                    printf ("\n");
+                }
+                catch (const FracOverflow&) {}
+            }
+        }
+        return 0;
     }
     if (mode == "tv")
     {
